@@ -128,6 +128,7 @@ def main():
         try:
             from pyvc.driver import Verifier
             v = Verifier(REPO)
+            v.interp.pinned_locals = ledger.get('__locals__', {})
             tmo = 20000 if tier == 'quick' else 60000
             results, reports, tg = v.run(list(cfg.get('functions', [])) + (list(cfg.get('thorough_functions', [])) if tier == 'thorough' else []),
                                          cfg.get('lemmas', []), timeout_ms=tmo, extra=cfg.get('extra', []))
@@ -179,6 +180,13 @@ def main():
     if a.update_ledger:
         ledger[pid] = {n: vs.count('proved') for n, vs in names.items() if all(x == 'proved' for x in vs)}
         ledger.setdefault('__tree__', {})[pid] = tree_now
+        try:
+            loc = ledger.setdefault('__locals__', {})
+            for mi in v.sb.mods.values():
+                for fi_ in mi.funcs.values():
+                    loc[fi_.key] = fi_.local_names()
+        except Exception:      # noqa
+            pass
         json.dump(ledger, open(ledger_path, 'w'), indent=0, sort_keys=True)
         print('ledger updated: %d obligation names proved for %s' % (len(ledger[pid]), pid))
     # ------------------------------------------------------------ native bounded part
